@@ -66,9 +66,13 @@ class GraphGen:
                 sig = r.choice(known['ar'])
                 chain = push({'t': 'atom', 'cls': 'FFT', 'ctor': 'kr',
                               'ins': [buf, ['r', sig[0], sig[1]], ['n', 1, 2], ['n', 0, 1], ['n', 1, 1], ['n', 0, 1]]})
-                for _k in range(r.randint(0, 2)):
+                chains = [chain]
+                for _k in range(r.randint(0, 3)):
                     cls = r.choice(['PV_MagAbove', 'PV_BrickWall'])
-                    chain = push({'t': 'atom', 'cls': cls, 'ctor': 'new', 'ins': [chain, pick(0.6)]})
+                    # usually the latest link, sometimes an earlier one (a chain consumed twice)
+                    src = chain if r.random() < 0.75 else r.choice(chains)
+                    chain = push({'t': 'atom', 'cls': cls, 'ctor': 'new', 'ins': [src, pick(0.6)]})
+                    chains.append(chain)
                 if r.random() < 0.3 and r.random() < 0.5:
                     chain = push({'t': 'atom', 'cls': 'PV_MagMul', 'ctor': 'new', 'ins': [chain, chain]})
                 y = push({'t': 'atom', 'cls': 'IFFT', 'ctor': 'ar', 'ins': [chain, ['n', 0, 1], ['n', 0, 1]]})
